@@ -388,6 +388,11 @@ Definition extend_iter (e : ecfg) (v : vec) (hint : N) (xs : list N) : outcome v
       fold_left (fun acc x => match acc with Panic k => Panic k | Ret w => push e w x end) xs (Ret v1)
   end.
 
+(* into_bump_slice / into_bump_slice_mut / into_boxed_slice: pointer and length are read and the
+   vector is forgotten — the slice (or boxed slice) is the initialised prefix of the buffer where it
+   is; nothing is dropped, cloned or moved *)
+Definition into_slice (v : vec) : list N * eff := (contents v, no_eff).
+
 (* ---------- splice: Drain over the range, then Splice::drop ---------- *)
 (* Drain::fill: write items into the gap [len, tail_start) while there are any;
    result: buffer, new vec.len, items left, whether the whole gap was filled *)
